@@ -93,6 +93,7 @@ Cases ==
    \cup {Case("longName", "xsl", "", "", 0, 0, v) : v \in LongXsl}
    \cup {Case("longName", "xpath", "", "", 0, 0, v) : v \in LongXPath}
    \cup {Case("manyDecimalFormats", "xsl", "", "", n, 0, "") : n \in {1, 9, 10, 11, 12, 23}}      \* around the size of a formatter cache
+   \cup {Case("manyDefaultCounts", "xsl", "", "", n, 0, "") : n \in {1, 24, 25, 26, 49, 50, 51, 52, 120}}   \* around the size of a run-time pattern cache
    \cup {Case("cdataBracket", "xsl", "", "", 0, 0, ToString(n) \o "/" \o ToString(k) \o "/" \o via) : n \in CdataLen, k \in CdataTail, via \in CdataVia}
    \cup {Case("paramExpression", "param", "", "", i, 0, "") : i \in 1..NParamExprs}
    \cup UNION {{Case("nonExpression", "xpath", "dropClose", n, i, 0, "") : i \in 1..M[n].closers} : n \in SeedsOf("xpath")}
